@@ -412,27 +412,19 @@ def aten_alpha_dropout(input: TensorType, p: float, train: bool) -> TensorType:
     raise NotImplementedError()
 
 
-@torch_op("aten::amax", trace_only=True)
-def aten_amax(
-    self: TRealOrUInt8, dim: Optional[Sequence[int]] = None, keepdim: bool = False
-) -> TRealOrUInt8:
+@torch_op("aten::amax")
+def aten_amax(self: TRealOrUInt8, dim: INT64, keepdim: bool = False) -> TRealOrUInt8:
     """amax(Tensor self, int[1] dim=[], bool keepdim=False) -> Tensor"""
 
     # ReduceMax reduces all dimensions when dim is empty
-    if dim is None or (isinstance(dim, Sequence) and len(dim) == 0):
-        return op.ReduceMax(self, keepdims=keepdim)
     return op.ReduceMax(self, dim, keepdims=keepdim)
 
 
-@torch_op("aten::amin", trace_only=True)
-def aten_amin(
-    self: TRealOrUInt8, dim: Optional[Sequence[int]] = None, keepdim: bool = False
-) -> TRealOrUInt8:
+@torch_op("aten::amin")
+def aten_amin(self: TRealOrUInt8, dim: INT64, keepdim: bool = False) -> TRealOrUInt8:
     """amin(Tensor self, int[1] dim=[], bool keepdim=False) -> Tensor"""
 
     # ReduceMin reduces all dimensions when dim is empty
-    if dim is None or (isinstance(dim, Sequence) and len(dim) == 0):
-        return op.ReduceMin(self, keepdims=keepdim)
     return op.ReduceMin(self, dim, keepdims=keepdim)
 
 
@@ -6413,13 +6405,10 @@ def aten_maximum(self: TTensor, other: TTensor) -> TTensor:
     return op.Max(self, other)
 
 
-@torch_op("aten::mean", trace_only=True)
-def aten_mean(self: TReal, dtype: int = -1) -> TReal:
+@torch_op("aten::mean")
+def aten_mean(self: TReal) -> TReal:
     """mean(Tensor self, *, ScalarType? dtype=None) -> Tensor"""
 
-    if dtype != -1 and dtype is not None:
-        # PyTorch casts the input before reducing
-        self = op.Cast(self, to=dtype)
     result = op.ReduceMean(self)
     return op.Squeeze(result)
 
